@@ -85,11 +85,16 @@ def aca_post(ctx, st, result):
         else:
             ctx.oblige("post", "accepted-spec=>the-result-of-adapt_class_type" + tag, result == ("adapted-spec", d["as_ns"]))
     elif k == "list":
-        ctx.oblige("post", "a-list-is-adapted-element-by-element,in-order,in-the-same-list" + tag,
-                   settings_ok and result is d["val"] and [e[1] for e in rec] == d["elems"] and list(result) == [("adapted", x) for x in d["elems"]])
+        # (the first version of these two clauses said "in the same list / dict": copied from the body. The statement - C08 - asks that what the caller gave is not
+        #  modified; the top-level copy of the parse methods does not reach into an OrderedDict, so the function itself must not write into its argument.)
+        ctx.oblige("post", "a-list-is-adapted-element-by-element,in-order,into-a-new-list" + tag,
+                   settings_ok and isinstance(result, list) and [e[1] for e in rec] == d["elems"] and list(result) == [("adapted", x) for x in d["elems"]])
+        ctx.oblige("frame", "the-list-given-is-not-written(it may be the caller's own object)" + tag, result is not d["val"] and list(d["val"]) == d["elems"])
     elif k == "dict":
-        ctx.oblige("post", "a-dict-is-adapted-value-by-value-under-the-same-keys,in-the-same-dict" + tag,
-                   settings_ok and result is d["val"] and list(result.items()) == [("p", ("adapted", d["elems"][0])), ("q", ("adapted", d["elems"][1]))])
+        ctx.oblige("post", "a-mapping-is-adapted-value-by-value-under-the-same-keys,in-order,into-a-new-mapping" + tag,
+                   settings_ok and isinstance(result, dict) and list(result.items()) == [("p", ("adapted", d["elems"][0])), ("q", ("adapted", d["elems"][1]))])
+        ctx.oblige("frame", "the-mapping-given-is-not-written(it may be the caller's own object: an OrderedDict is not copied by the parse methods)" + tag,
+                   result is not d["val"] and list(d["val"].items()) == [("p", d["elems"][0]), ("q", d["elems"][1])])
     else:
         ctx.oblige("post", "any-other-value-is-returned-as-it-is" + tag, result is d["val"] and not ev)
 
